@@ -40,6 +40,7 @@ import EPV.Gen.GudX
 import EPV.Gen.RmtvInit
 import EPV.Gen.RmtvDerivs
 import EPV.Tactics
+import EPV.Lemmas.Bridge.SemiGud
 
 set_option linter.all false
 
@@ -60,15 +61,15 @@ def EexpAccepts (p : GudEexp.P) : Prop :=
 /-- the two range conditions are the documented ones: 1.00001 < γ < 9999 (1.00001 = the double) -/
 theorem eexp_range (p : GudEexp.P) :
     (GudEexp.c1 p ↔ (2251822331683385 : ℝ) / 2251799813685248 < p.gamm) ∧ (GudEexp.c2 p ↔ p.gamm < 9999) := by
-  simp only [epv_cond, and_self]
+  refine ⟨?_, ?_⟩ <;> (simp only [epv_cond] <;> epv_semi_iff)
 
 /-- `eexp` returns exactly on the accepted inputs and raises `ValueError` on all others -/
 theorem eexp_outcome (p : GudEexp.P) :
     (EexpAccepts p → GudEexp.outcome p = .ok) ∧ (¬ EexpAccepts p → GudEexp.outcome p = .raise "ValueError") := by
   unfold EexpAccepts
   simp only [epv_tree]
-  have h0 : GudEexp.c0 p ↔ p.nnn = 2 := by simp only [epv_cond]
-  have h5 : GudEexp.c5 p ↔ p.nnn = 3 := by simp only [epv_cond]
+  have h0 : GudEexp.c0 p ↔ p.nnn = 2 := by simp only [epv_cond] <;> epv_semi_gud_eq_iff
+  have h5 : GudEexp.c5 p ↔ p.nnn = 3 := by simp only [epv_cond] <;> epv_semi_gud_eq_iff
   constructor
   · rintro ⟨hn, h1, h2, h4⟩
     split_ifs <;> first | rfl | (exfalso; tauto)
@@ -95,7 +96,7 @@ theorem state_welldefined (p : GudState.P) (hr : 0 < p.r) (hx : p.targetx ≠ 0)
     (hρ : p.rho0 ≠ 0) (hR : p.R ≠ 0) (hg : p.gamma_d ≠ 0) (hg1 : p.gamma_d - 1 ≠ 0) :
     GudState.L1.WellDefined p ∧ GudState.L11.WellDefined p ∧ GudState.L16.WellDefined p := by
   unfold GudState.L1.WellDefined GudState.L11.WellDefined GudState.L16.WellDefined
-  refine ⟨⟨hr, ?_, hρ, hR, ?_, ?_⟩, ⟨hr, ?_, hρ, hR, ?_, ?_⟩, ⟨hr, ?_, hρ, hR, ?_, ?_⟩⟩ <;> positivity
+  epv_semi_gud_wd
 
 /-- non-vacuity: the default parameters accepted by `eexp` need 1.05·a₀ < 1, which is an
 inequality between square roots; here only the discrete part -/
@@ -118,7 +119,7 @@ theorem rmtv_derivs_outcome (p : RmtvDerivs.P) :
         RmtvDerivs.outcome p = .raise "ValueError")
     ∧ (p.alpha ≠ 0 → ¬ RmtvDerivs.c1 p → ¬ RmtvDerivs.c2 p → ¬ RmtvDerivs.c3 p → ¬ RmtvDerivs.c4 p →
         RmtvDerivs.outcome p = .ok) := by
-  have h0 : RmtvDerivs.c0 p ↔ p.alpha = 0 := by simp only [epv_cond]
+  have h0 : RmtvDerivs.c0 p ↔ p.alpha = 0 := by simp only [epv_cond] <;> epv_semi_gud_eq_iff
   simp only [epv_tree]
   refine ⟨?_, ?_, ?_, ?_⟩
   · intro h; simp only [h0.mpr h, if_true]
@@ -146,7 +147,7 @@ theorem finding_guderley_focus_time (q : GudX.P) (r : ℝ) :
     · simp only [epv_tree, epv_cond, hx]
       norm_num [hB]
     · unfold GudState.L11.WellDefined
-      rintro ⟨_, h, _⟩
-      exact h (by rw [hx]; ring)
+      intro hW
+      simp [hx] at hW
 
 end EPV.C20
